@@ -97,6 +97,7 @@ struct Case {
     recs: [BTreeMap<u64, Rec>; 3],
     claimed_la: [Option<u64>; 3],
     initial_discarded: bool,
+    fired: std::collections::HashSet<String>,
     aa_limit: bool,
     confirmed: bool,
     last_shrink: Option<u64>,
@@ -104,6 +105,12 @@ struct Case {
     n_lost: u64,
     n_acked: u64,
     n_pto: u64,
+}
+
+impl Case {
+    fn fired_cap(&self, sink: &Sink, key: &str) -> bool {
+        sink.monitor_failures.iter().filter(|m| m["key"] == key).count() >= 100
+    }
 }
 
 fn now_ns(origin: Instant) -> u64 { Instant::now().saturating_duration_since(origin).as_nanos() as u64 }
@@ -184,6 +191,7 @@ async fn apply(c: &mut Case, sink: &mut Sink, op: &Op) -> bool {
     sink.line(&text, &format!("{}{} r={} lost={} {}", inp, q_s, result, lost_s, post.int_part()));
 
     // ---------------- monitors (own books + implementation snapshot only) ----------------
+    let mut fails: Vec<(String, String)> = vec![];
     let (cw0, cw1) = (pre.num("cwnd"), post.num("cwnd"));
     let mds = post.num("mds");
     let mut newly_acked: Vec<Rec> = vec![];
@@ -194,8 +202,7 @@ async fn apply(c: &mut Case, sink: &mut Sink, op: &Op) -> bool {
             if *e == 1 && !c.server {
                 // clause 3c: the backoff survives sending (Initial keys can only be discarded once)
                 if c.initial_discarded && post.num("pto") < pre.num("pto") {
-                    sink.branch("mon:pto_reset_on_send");
-                    sink.monitor_fail("pto_reset_on_send", &format!("client sent Handshake pn {}: pto_count {} -> {} although the Initial space was discarded before", pn, pre.num("pto"), post.num("pto")));
+                    fails.push(("pto_reset_on_send".to_string(), format!("client sent Handshake pn {}: pto_count {} -> {} although the Initial space was discarded before", pn, pre.num("pto"), post.num("pto"))));
                 }
                 c.recs[0].clear();
                 c.initial_discarded = true;
@@ -228,19 +235,18 @@ async fn apply(c: &mut Case, sink: &mut Sink, op: &Op) -> bool {
             let largest_acked = c.recs[*e].iter().filter(|(_, r)| r.acked).map(|(p, _)| *p).max();
             if let Some(r) = c.recs[*e].get_mut(pn) {
                 lost_ts.push(r.ts);
-                if r.acked { sink.monitor_fail("lost_after_ack", &format!("epoch {} pn {} reported lost after an ACK frame covered it", e, pn)); }
+                if r.acked { fails.push(("lost_after_ack".to_string(), format!("epoch {} pn {} reported lost after an ACK frame covered it", e, pn))); }
                 let later = largest_acked.is_some_and(|la| la > *pn);
                 if !later {
-                    sink.branch("mon:lost_without_later_ack");
-                    sink.monitor_fail("lost_without_later_ack", &format!("epoch {} pn {} reported lost at t={} (sent {}), no later packet acknowledged", e, pn, now, r.ts));
+                    fails.push(("lost_without_later_ack".to_string(), format!("epoch {} pn {} reported lost at t={} (sent {}), no later packet acknowledged", e, pn, now, r.ts)));
                 } else {
                     let pkt_thr = c.claimed_la[*e].is_some_and(|la| la >= *pn + 3);
                     let time_thr = now.saturating_sub(r.ts) >= ld;
-                    if !pkt_thr && !time_thr { sink.monitor_fail("lost_below_both_thresholds", &format!("epoch {} pn {} lost: largest acked {:?}, age {} < loss delay {}", e, pn, largest_acked, now - r.ts, ld)); }
+                    if !pkt_thr && !time_thr { fails.push(("lost_below_both_thresholds".to_string(), format!("epoch {} pn {} lost: largest acked {:?}, age {} < loss delay {}", e, pn, largest_acked, now - r.ts, ld))); }
                 }
                 r.lost = true;
             } else {
-                sink.monitor_fail("lost_unknown_packet", &format!("epoch {} pn {} reported lost but is not outstanding", e, pn));
+                fails.push(("lost_unknown_packet".to_string(), format!("epoch {} pn {} reported lost but is not outstanding", e, pn)));
             }
         }
     }
@@ -250,7 +256,7 @@ async fn apply(c: &mut Case, sink: &mut Sink, op: &Op) -> bool {
         if e == 2 && !c.confirmed { continue; }
         let open = c.recs[e].values().any(|r| r.elic && r.infl && !r.acked && !r.lost);
         if open && timer.is_none() && !c.aa_limit {
-            sink.monitor_fail("outstanding_no_timer", &format!("epoch {}: ack-eliciting packet outstanding, not at the anti-amplification limit, no timer armed", e));
+            fails.push(("outstanding_no_timer".to_string(), format!("epoch {}: ack-eliciting packet outstanding, not at the anti-amplification limit, no timer armed", e)));
         }
     }
     // clause 3b: consecutive probe timeouts double the interval (same RTT estimate)
@@ -260,49 +266,57 @@ async fn apply(c: &mut Case, sink: &mut Sink, op: &Op) -> bool {
             for (i, e) in EPOCHS.iter().enumerate() {
                 let p1 = c.cc.get_pto(*e).as_nanos();
                 if p1 != 2 * pto_pre[i] {
-                    sink.branch("mon:pto_not_doubled");
-                    sink.monitor_fail("pto_not_doubled", &format!("epoch {}: PTO interval {} ns after {} ns (pto_count {} -> {})", i, p1, pto_pre[i], pre.num("pto"), post.num("pto")));
+                    fails.push(("pto_not_doubled".to_string(), format!("epoch {}: PTO interval {} ns after {} ns (pto_count {} -> {})", i, p1, pto_pre[i], pre.num("pto"), post.num("pto"))));
                     break;
                 }
             }
         }
     }
     // clause 4: cwnd >= 2 datagrams
-    if cw1 < 2 * mds { sink.monitor_fail("cwnd_below_two_datagrams", &format!("cwnd {} < 2*{}", cw1, mds)); }
+    if cw1 < 2 * mds { fails.push(("cwnd_below_two_datagrams".to_string(), format!("cwnd {} < 2*{}", cw1, mds))); }
     // clause 5: shrinks at most once per round trip
     if cw1 < cw0 {
         let trig = lost_ts.iter().copied().max().or(ecn_trigger);
         if let (Some(t_shrink), Some(tr)) = (c.last_shrink, trig) {
             if tr <= t_shrink {
-                sink.branch("mon:second_shrink_same_rtt");
-                sink.monitor_fail("second_shrink_same_rtt", &format!("cwnd {} -> {} at t={} for packets sent at <= {} although cwnd already shrank at t={}", cw0, cw1, now, tr, t_shrink));
+                fails.push(("second_shrink_same_rtt".to_string(), format!("cwnd {} -> {} at t={} for packets sent at <= {} although cwnd already shrank at t={}", cw0, cw1, now, tr, t_shrink)));
             }
         }
-        if trig.is_none() { sink.monitor_fail("shrink_without_loss_or_ecn", &format!("cwnd {} -> {} on `{}`", cw0, cw1, text)); }
+        if trig.is_none() { fails.push(("shrink_without_loss_or_ecn".to_string(), format!("cwnd {} -> {} on `{}`", cw0, cw1, text))); }
         c.last_shrink = Some(now);
     }
     // clause 6: grows only on acknowledgements outside recovery
     if cw1 > cw0 {
         let rs0 = pre.opt("rs");
-        if newly_acked.is_empty() { sink.monitor_fail("grow_without_ack", &format!("cwnd {} -> {} on `{}`", cw0, cw1, text)); }
+        if newly_acked.is_empty() { fails.push(("grow_without_ack".to_string(), format!("cwnd {} -> {} on `{}`", cw0, cw1, text))); }
         else if !newly_acked.iter().any(|r| r.infl && rs0.is_none_or(|rs| r.ts > rs)) {
-            sink.monitor_fail("grow_in_recovery", &format!("cwnd {} -> {}: every newly acked packet was sent at or before recovery start {:?}", cw0, cw1, rs0));
+            fails.push(("grow_in_recovery".to_string(), format!("cwnd {} -> {}: every newly acked packet was sent at or before recovery start {:?}", cw0, cw1, rs0)));
         }
     }
     // clause 7: bytes in flight == sizes of the packets still outstanding
     let sum: u64 = c.recs.iter().flat_map(|m| m.values()).filter(|r| r.infl && !r.acked && !r.lost).map(|r| r.size as u64).sum();
-    if post.num("bif") != sum { sink.monitor_fail("bif_mismatch", &format!("bytes_in_flight {} but outstanding packets sum to {}", post.num("bif"), sum)); }
+    if post.num("bif") != sum { fails.push(("bif_mismatch".to_string(), format!("bytes_in_flight {} but outstanding packets sum to {}", post.num("bif"), sum))); }
     // clause 8: no quota beyond the window
     if let Some(Ok(q)) = quota {
         if post.num("bif") >= cw1 {
-            sink.branch("mon:quota_beyond_cwnd");
-            sink.monitor_fail("quota_beyond_cwnd", &format!("send_quota = Ok({}) with bytes_in_flight {} >= cwnd {}", q, post.num("bif"), cw1));
+            fails.push(("quota_beyond_cwnd".to_string(), format!("send_quota = Ok({}) with bytes_in_flight {} >= cwnd {}", q, post.num("bif"), cw1)));
         }
     }
+    for (k, w) in fails { mfail(c, sink, &k, &w); }
     if !lost.is_empty() { sink.branch("lost:some"); }
     if cw1 < cw0 { sink.branch("cwnd:shrink"); } else if cw1 > cw0 { sink.branch("cwnd:grow"); }
     if result.starts_with("toomany") { sink.branch("tick:toomany"); return true; }
     true
+}
+
+/// report a monitor failure: counted every time (`mon:<key>` in the branch histogram), reported once per case
+/// and at most 100 times per key and run
+fn mfail(c: &mut Case, sink: &mut Sink, key: &str, what: &str) {
+    let b = format!("mon:{}", key);
+    sink.branch(&b);
+    if !c.fired.insert(key.to_string()) { return; }
+    if sink.branches.get(&b).copied().unwrap_or(0) > 1 && c.fired_cap(sink, key) { return; }
+    sink.monitor_fail(key, what);
 }
 
 fn new_case(server: bool, mtu: u16, mad_ns: u64, strict: bool) -> Result<Case, String> {
@@ -316,7 +330,7 @@ fn new_case(server: bool, mtu: u16, mad_ns: u64, strict: bool) -> Result<Case, S
     ];
     let ps2 = ps.clone();
     let cc = catch(move || ArcCC::new(Algorithm::NewReno, Duration::from_nanos(mad_ns), trackers, ps2, ArcSendWaker::new()))?;
-    Ok(Case { cc, hs, ps, origin: Instant::now(), log, server, recs: Default::default(), claimed_la: [None; 3], initial_discarded: false, aa_limit: true, confirmed: false,
+    Ok(Case { cc, hs, ps, origin: Instant::now(), log, server, recs: Default::default(), claimed_la: [None; 3], initial_discarded: false, fired: Default::default(), aa_limit: true, confirmed: false,
               last_shrink: None, strict, n_lost: 0, n_acked: 0, n_pto: 0 })
 }
 
